@@ -39,7 +39,7 @@ ASSUME = [
     "non-termination is decided by CPU time of an isolated child process (5 s per started 8 KiB of input; normal < 1 ms), unbounded memory by 3 GiB of live heap, stack exhaustion by debug.SetMaxStack(32 MiB)",
     "stray reads are observable only where they cross the PROT_NONE page placed right after each table (or are recorded as a byte slice of the tree)",
     "InBounds is demanded of the objects reachable from the root scope; WellFormed of every live pool slot",
-    "tables are parsed into a tree holding the five default scopes (table handle 42), as the repository's own tests do; the SSDT is mutated after the pristine DSDT has been loaded",
+    "tables are parsed into a tree holding the five default scopes (table handle 42), as the repository's own tests do; the SSDT is mutated after the pristine DSDT has been loaded; every fifth leg-T input is followed by the pristine SSDT on the same parser and tree (a rejected table does not end the use of either)",
     "trusted Go: byte encoder / generator of the seed programs, fragment splitter, guard-page allocator, projection of the pool into link arrays and slice offsets, child-process supervision",
 ]
 
@@ -56,7 +56,7 @@ def _sig(m):
 
 
 def _replay_of(ev):
-    r = {"id": ev.get("id"), "hex": ev.get("hex", ""), "pre": ev.get("pre") or []}
+    r = {"id": ev.get("id"), "hex": ev.get("hex", ""), "pre": ev.get("pre") or [], "post": ev.get("post") or []}
     for k in ("src", "seed", "plan"):
         if ev.get(k) not in (None, ""):
             r[k] = ev[k]
@@ -65,6 +65,7 @@ def _replay_of(ev):
 
 def _brief(ev):
     return {"id": ev.get("id"), "src": ev.get("src") or {"seed": ev.get("seed"), "plan": ev.get("plan")}, "pre": ev.get("pre") or [],
+            "post": ev.get("post") or [],
             "hex": ev.get("hex", "")[:160], "bytes": ev.get("n"), "res": ev.get("res"), "msg": ev.get("msg", "")[:200], "cpu_ms": ev.get("cpu"),
             "pool_slots": len(ev.get("L", [])), "byte_slices": len(ev.get("S", [])), "printed": ev.get("pp"), "ppmsg": ev.get("ppmsg", "")[:160]}
 
@@ -95,6 +96,8 @@ def _validate(ctx, leg, path, devname, kf_inputs, parallel=None, timeout=1200):
     for m in mism:
         ev = m["case_events"][0]
         key = (ev.get("hex", ""), tuple(ev.get("pre") or []))
+        if ev.get("post"):
+            key = (None, None)
         if key in kf_inputs:
             ctx.known_finding(kf_inputs[key].get("what", "known finding") + " input=" + key[0])
             continue
@@ -124,7 +127,7 @@ def _scan(ctx, path):
             h = hist.setdefault(leg, {})
             h[ev["res"]] = h.get(ev["res"], 0) + 1
             if len(ev.get("L", [])) > 6 or ev["res"] not in ("ok", "error"):   # got beyond the five default scopes
-                ctx.distinct([ev.get("pre") or [], ev.get("hex", "")])
+                ctx.distinct([ev.get("pre") or [], ev.get("post") or [], ev.get("hex", "")])
                 if taken.get(leg, 0) < 1 and len(ev.get("L", [])) > 12:
                     ctx.sample({"leg": leg, "event": _brief(ev)})
                     taken[leg] = 1
@@ -136,7 +139,7 @@ def run(ctx):
     ctx.assumptions += ASSUME
     ctx.rule = ("an evaluation is one byte string presented to the real ParseAML in a child process and judged by the TLA+ monitor "
                 "(outcome in {ParseOK, ParseError}, CPU bound, WellFormed link arrays, InBounds byte slices, PrettyPrint returned); "
-                "inputs are distinct by their bytes (and preloaded tables) and non-trivial when the parser built at least one object "
+                "inputs are distinct by their bytes (and the pristine tables loaded before/after) and non-trivial when the parser built at least one object "
                 "beyond the default scopes or did not return; leg G inputs are the single-mutation plans TLC enumerates from the seed programs, "
                 "leg T inputs are seeded random strings and stacked random mutations of generated programs and of the shipped tables")
     devs, kf_inputs = _devs(ctx)
@@ -144,7 +147,9 @@ def run(ctx):
     d = ctx.spec_dir("aml")
 
     # ---- leg M: design model, every byte string of the small alphabet; design mutants must be rejected
-    ctx.model_check(d, "AmlRobustModel", "MCAmlRobustQuick" if q else "MCAmlRobustFull", workers=8, timeout=900)
+    r = ctx.model_check(d, "AmlRobustModel", "MCAmlRobustQuick" if q else "MCAmlRobustFull", workers=8, timeout=900, coverage=not q)
+    if r.coverage_zero:
+        raise vlib.Broken("design model: actions never taken in the scope (vacuous bound): %s" % r.coverage_zero)
     for b in (["NoCycleGuard", "ByteListUnbounded"] if q else
               ["NoPkgEndCheck", "ByteListUnbounded", "NoCycleGuard", "AppendBeforeDetach", "NoPassBound"]):
         ctx.expect_model_violation(d, "AmlRobustModel", "MCAmlRobustBug_" + b, workers=8, timeout=600)
@@ -170,27 +175,63 @@ def run(ctx):
     r = ctx.model_check(d, "AmlRobustPlans", "AmlRobustPlans1", workers=1, env={"SEEDS": seeds_path, "CASES": cases},
                         timeout=1200, name="emit-plans")
     ctx.cov["legs"]["emit-plans"].update({"seeds": len(used), "seeds_available": len(seeds), "cases": r.distinct})
+    case_files = [cases]
+    if not q:
+        # plans of two mutations, for the shortest seeds (the number of plans grows with the square of the length)
+        short = sorted((s for s in seeds if 10 <= len(json.loads(s)["b"]) <= 16), key=lambda s: (len(json.loads(s)["b"]), s))
+        short = short[::max(1, len(short) // 8)][:8]
+        if short:
+            seeds2, cases2 = os.path.join(ctx.work, "seeds2.ndjson"), os.path.join(ctx.work, "cases2.ndjson")
+            with open(seeds2, "w") as f:
+                f.writelines(short)
+            r2 = ctx.model_check(d, "AmlRobustPlans", "AmlRobustPlans2", workers=1, env={"SEEDS": seeds2, "CASES": cases2},
+                                 timeout=1800, name="emit-plans-2")
+            ctx.cov["legs"]["emit-plans-2"].update({"seeds": len(short), "cases": r2.distinct})
+            case_files.append(cases2)
     # ---- leg R: pinned reproducers;  leg T: seeded random driver;  all in one harness run with leg G
     corpus = os.path.join(ctx.work, "corpus.ndjson")
     with open(corpus, "w") as f:
         for c in CORPUS:
             f.write(json.dumps({"id": c["id"], "src": "corpus: " + c["note"], "hex": c["hex"], "pre": c.get("pre", [])}) + "\n")
     trace = os.path.join(ctx.work, "trace.ndjson")
-    nsmall, ntables = (6000, 36) if q else (120000, 480)
-    _harness(ctx, "TestVerifC12Run", {"C12_CASES": cases + ":" + corpus, "C12_ID_PREFIX": "g", "C12_GEN": "small:%d,tables:%d" % (nsmall, ntables),
+    nsmall, ntables = (6000, 36) if q else (400000, 1500)
+    _harness(ctx, "TestVerifC12Run", {"C12_CASES": corpus + ":" + ":".join(case_files), "C12_ID_PREFIX": "g", "C12_GEN": "small:%d,tables:%d" % (nsmall, ntables),
                                       "C12_TRACE_OUT": trace, "C12_PAR": 4 if q else 8}, 2400)
 
     # ---- leg V: TLC judges every event (one monitor run over all legs; few JVMs: the machine is shared)
     hist, nev = _scan(ctx, trace)
+    skipped = 0
+    if os.path.exists(trace + ".anomalies"):
+        for a in open(trace + ".anomalies").read().splitlines()[:5]:
+            ctx.note("a batch child died but the input it was parsing behaves when run alone in a fresh process (not a verdict): " + a[:300])
+    if os.path.exists(trace + ".truncated"):
+        skipped = int(open(trace + ".truncated").read() or 0)
+        ctx.note("exploration stopped early after repeated CPU/heap overruns: %d inputs were not run" % skipped)
     # the pinned reproducers are judged one per monitor run (a monitor stops at its first mismatch)
-    rtrace, etrace = os.path.join(ctx.work, "trace_r.ndjson"), os.path.join(ctx.work, "trace_e.ndjson")
-    with open(trace) as f, open(rtrace, "w") as fr, open(etrace, "w") as fe:
+    # (and the monitor reads its whole chunk into memory: parts of at most 300 000 events, eight chunks each)
+    rtrace = os.path.join(ctx.work, "trace_r.ndjson")
+    parts, fe, n_in_part = [], None, 0
+    with open(trace) as f, open(rtrace, "w") as fr:
         for line in f:
-            (fr if line.startswith('{"k":"parse","id":"r-') else fe).write(line)
+            if line.startswith('{"k":"parse","id":"r-'):
+                fr.write(line)
+                continue
+            if fe is None or n_in_part >= 300000:
+                if fe:
+                    fe.close()
+                parts.append(os.path.join(ctx.work, "trace_e%d.ndjson" % len(parts)))
+                fe, n_in_part = open(parts[-1], "w"), 0
+            fe.write(line)
+            n_in_part += 1
+    if fe:
+        fe.close()
+    open(trace, "w").close()          # free the disk space but keep the entry: vlib numbers its directories by listdir(work)
     _validate(ctx, "V-corpus", rtrace, devname, kf_inputs, parallel=len(CORPUS), timeout=600)
-    _validate(ctx, "V-all", etrace, devname, kf_inputs, parallel=max(1, min(8, nev // 4000)), timeout=2400)
-    for leg, h in hist.items():
-        ctx.cov["legs"]["V-all"].setdefault("by_leg", {})[leg] = h
+    for i, part in enumerate(parts):
+        _validate(ctx, "V-all" if len(parts) == 1 else "V-all-%d" % (i + 1), part, devname, kf_inputs,
+                  parallel=max(1, min(8, (nev // len(parts)) // 4000)), timeout=2400)
+        open(part, "w").close()
+    ctx.cov["legs"]["outcomes_by_leg"] = hist
 
     # a rule-shaped finding that is open: its pinned reproducer is judged strictly, on its own
     for f in devs:
@@ -204,7 +245,7 @@ def run(ctx):
         if mism:
             ctx.known_finding(f.get("what", f["deviation"]) + " input=" + f.get("input_hex", ""))
 
-    ctx.cov["exhaustive"] = (not q) and not ctx.violations
+    ctx.cov["exhaustive"] = (not q) and not ctx.violations and not skipped
     ctx.cov["explanation"] = ("exhaustive = every plan of one mutation (every truncation point, bit flip, substitution of an interesting byte, "
                               "corruption of every plausible PkgLength, package splice) of every seed program was emitted by TLC and fed to the real "
                               "parser (thorough tier; the quick tier takes a seeded dozen of the seeds). The space of all byte strings is only sampled.")
@@ -216,7 +257,8 @@ def replay(ctx, path):
     devs, kf_inputs = _devs(ctx)
     cf = os.path.join(ctx.work, "replay_case.ndjson")
     with open(cf, "w") as f:
-        f.write(json.dumps({"id": "x-" + str(rep.get("id") or "replay"), "src": "replay", "hex": rep.get("hex", ""), "pre": rep.get("pre") or []}) + "\n")
+        f.write(json.dumps({"id": "x-" + str(rep.get("id") or "replay"), "src": "replay", "hex": rep.get("hex", ""), "pre": rep.get("pre") or [],
+                            "post": rep.get("post") or []}) + "\n")
     tr = os.path.join(ctx.work, "trace_replay.ndjson")
     _harness(ctx, "TestVerifC12Run", {"C12_CASES": cf, "C12_TRACE_OUT": tr, "C12_BATCH": 1}, 600)
     _validate(ctx, "replay", tr, devs[0]["deviation"] if devs else "", kf_inputs)
